@@ -122,6 +122,21 @@ Example C13_chain_nonvacuous :
   = ["snoopy_filter_exclude_uid"; "snoopy_filter_only_uid"].
 Proof. vm_compute. reflexivity. Qed.
 
+(** the logging path of one exec as a whole (action/log-syscall-exec.c: filter chain, format expansion, dispatch; filters answering
+    PASS, message non-empty): exactly the own implementations of the enabled chain elements, of the format's data sources up to the
+    first unknown one, and of the configured output iff it is enabled - in every configuration *)
+Theorem C13_exec_path_runs_own : forall cfg chain fmt output,
+    exec_calls C cfg chain fmt output =
+    map (impl_of Filter) (filter (enabled (rc_flt C) cfg) chain)
+    ++ map (impl_of Datasource) (take_while (enabled (rc_ds C) cfg) fmt)
+    ++ (if enabled (rc_out C) cfg output then [impl_of Output output] else []).
+Proof. exact (exec_calls_spec C gen_ok). Qed.
+Example C13_exec_path_nonvacuous :
+  exec_calls C (switch_off "SNOOPY_CONF_OUTPUT_ENABLED_devlog" all_on) ["only_uid"; "nosuch"] ["cmdline"; "uid"] "devtty"
+  = ["snoopy_filter_only_uid"; "snoopy_datasource_cmdline"; "snoopy_datasource_uid"; "snoopy_output_devttyoutput"]
+  /\ exec_calls C (switch_off "SNOOPY_CONF_OUTPUT_ENABLED_devlog" all_on) [] ["cmdline"] "devlog" = ["snoopy_datasource_cmdline"].
+Proof. vm_compute. split; reflexivity. Qed.
+
 (** the registries are used only by the format expansion, the filter chain, the `output` option parser and the message dispatch,
     through doesNameExist / callByName / dispatch only: ids never leave the registries and no data source, filter or output
     implementation calls back into a registry (its meaning would then depend on other features' switches) *)
@@ -206,6 +221,7 @@ Print Assumptions C13_guards_match.
 Print Assumptions C13_model_meets_spec.
 Print Assumptions C13_callers_known.
 Print Assumptions C13_chain_skips_unknown.
+Print Assumptions C13_exec_path_runs_own.
 Print Assumptions C13_dispatch_is_call.
 Print Assumptions C13_dispatch_own.
 Print Assumptions C13_dispatch_off_is_unknown.
